@@ -1,7 +1,7 @@
 (** LeafLiveP.v — hand-written model functions = the definitions tools/gen_leaf.py regenerates from the Rust
     source on every run (coq/Gen/LeafLive.v); see DESIGN.md §12.8. *)
 From Coq Require Import Floats.
-From Srtla Require Import Base Constants LeafLive LeafTac.
+From Srtla Require Import Base Constants LeafLive LeafStall LeafTac.
 From Srtla Require Keepalive Stall Rtt Route StallSel.
 From Coq Require Import ZifyBool.
 Local Open Scope Z_scope.
@@ -36,3 +36,12 @@ Proof. first [ solve [ intros H; unfold leaf_stall_probe_due, Route.probe_link; 
 Lemma leaf_needs_measurement_ok r conn est now :
   Rtt.needs_measurement r conn est now = leaf_needs_measurement (Rtt.r_waiting r) (Rtt.r_last_meas r) conn est now.
 Proof. first [ solve [ reflexivity ] | leaf_auto ]. Qed.
+
+(** [get_smooth_rtt_ms] (generated in Gen/LeafStall.v with the stall functions that call it)  <->  Model/Keepalive.v (C14) *)
+Lemma leaf_get_smooth_rtt_ms_keepalive_ok l :
+  Keepalive.get_smooth_rtt_ms l = leaf_get_smooth_rtt_ms (Rtt.kx (Rtt.r_k (Keepalive.l_rtt l))).
+Proof. first [ solve [ unfold Keepalive.get_smooth_rtt_ms, leaf_get_smooth_rtt_ms, Rtt.f_max0, Select.f64_max, Rtt.f_is_nan;
+                        destruct (PrimFloat.is_nan _); reflexivity ]
+             | (unfold Keepalive.get_smooth_rtt_ms; generalize (Rtt.kx (Rtt.r_k (Keepalive.l_rtt l))); clear l; intro x;
+                unfold leaf_get_smooth_rtt_ms, Rtt.f_max0, Select.f64_max, Rtt.f_is_nan;
+                change (PrimFloat.is_nan 0) with false; leaf_split2; leaf_close2) ]. Qed.
